@@ -18,6 +18,7 @@ import (
 	"go.opentelemetry.io/collector/confmap/provider/yamlprovider"
 	"go.opentelemetry.io/collector/confmap/xconfmap"
 	"go.opentelemetry.io/collector/otelcol"
+	"go.opentelemetry.io/collector/service/telemetry"
 )
 
 // TestVerifC13Load goes through the real collector configuration loading
@@ -219,7 +220,9 @@ func TestVerifC13Load(t *testing.T) {
 		t.Fatal(err)
 	}
 	kinds, toggles, defFlat, leafPaths := c13Setup(t, factories)
+	c13CapturePristine(factories, kinds) // before ANY collector configuration is loaded in this process
 	nInvalid := c13InvalidNested(out, factories)
+	nInvalid += c13ServiceHistory(out, factories, nInvalid)
 	nInvalid += c13DefaultsProbe(out, factories, nInvalid)
 	nInvalid += c13ServiceProbe(out, factories, nInvalid)
 	nInvalid += c13StrictAll(out, factories, nInvalid)
@@ -484,6 +487,36 @@ func TestVerifC13Load(t *testing.T) {
 			}
 			out.Linef("stat reload_rounds 1")
 			out.Linef("stat reload_removed_settings %d", removed)
+		}
+		// … and the same instances with NO keys at all: every instance (and the service section) must look exactly as when it
+		// was loaded in the fresh process (pointer-typed defaults decoded into in place would keep what was written above)
+		rootE := map[string]any{"service": root["service"]}
+		for _, in := range insts {
+			sec, _ := rootE[in.section].(map[string]any)
+			if sec == nil {
+				sec = map[string]any{}
+				rootE[in.section] = sec
+			}
+			sec[in.id()] = map[string]any{}
+		}
+		if cfgE, errE := c13LoadJSON(factories, rootE); errE != nil {
+			out.Linef("viol sig=C13/reload/valid-config-rejected where=empty-instances err=%s", vHex(errE.Error()))
+		} else if effE, errE2 := c13EffectiveOf(cfgE); errE2 == nil {
+			for _, in := range insts {
+				gotE := map[string]any{}
+				if sec, ok := effE[in.section].(map[string]any); ok {
+					if ie, ok := sec[in.id()].(map[string]any); ok {
+						c13Flatten(ie, "", gotE)
+					}
+				}
+				kindKey := in.section + "/" + in.typ
+				if p, diff := c13FirstDiff(c13PristineEmpty[kindKey], gotE); diff {
+					out.Linef("viol sig=C13/reload/removed-key-persists/%s/%s/%s id=%s fresh=%s now=%s", in.section, in.typ, p, in.id(),
+						vHex(c13Norm(c13PristineEmpty[kindKey][p])), vHex(c13Norm(gotE[p])))
+				}
+			}
+			c13CheckService(out, "C13/reload/removed-key-persists/service", effE, cfgE)
+			out.Linef("stat reload_empty_rounds 1")
 		}
 		if sameType {
 			out.Linef("nt")
@@ -1596,4 +1629,199 @@ func c13StrictAll(out *vOut, factories otelcol.Factories, first int) int {
 		out.Flush()
 	}
 	return len(kinds)
+}
+
+// ---- history independence: what was loaded before must not show in a later load ---------------------------------
+
+var (
+	c13PristineEmpty   map[string]map[string]any // per component type: the effective form of an instance without keys, first load of the process
+	c13PristineService map[string]any            // flattened effective service section of that first load
+	c13PristineTyped   string                    // deep rendering of the typed service configuration of that first load
+	c13PristineErr     error
+)
+
+func c13MinimalService() map[string]any {
+	return map[string]any{"pipelines": map[string]any{"traces": map[string]any{"receivers": []any{"nop"}, "exporters": []any{"nop"}}}}
+}
+
+// c13CapturePristine loads, as the very first load of the process, a document with one key-less instance of every
+// component type and a service section that writes nothing below service::telemetry.
+func c13CapturePristine(factories otelcol.Factories, kinds []string) {
+	root := map[string]any{"service": c13MinimalService()}
+	for _, k := range kinds {
+		st := strings.SplitN(k, "/", 2)
+		sec, _ := root[st[0]].(map[string]any)
+		if sec == nil {
+			sec = map[string]any{}
+			root[st[0]] = sec
+		}
+		sec[st[1]+"/pristine"] = map[string]any{}
+	}
+	root["receivers"].(map[string]any)["nop"] = map[string]any{}
+	root["exporters"].(map[string]any)["nop"] = map[string]any{}
+	cfg, err := c13LoadJSON(factories, root)
+	if err != nil {
+		c13PristineErr = err
+		return
+	}
+	eff, err := c13EffectiveOf(cfg)
+	if err != nil {
+		c13PristineErr = err
+		return
+	}
+	c13PristineEmpty = map[string]map[string]any{}
+	for _, k := range kinds {
+		st := strings.SplitN(k, "/", 2)
+		flat := map[string]any{}
+		if sec, ok := eff[st[0]].(map[string]any); ok {
+			if ie, ok := sec[st[1]+"/pristine"].(map[string]any); ok {
+				c13Flatten(ie, "", flat)
+			}
+		}
+		c13PristineEmpty[k] = flat
+	}
+	c13PristineService = map[string]any{}
+	if svc, ok := eff["service"].(map[string]any); ok {
+		if tel, ok := svc["telemetry"].(map[string]any); ok {
+			c13Flatten(tel, "", c13PristineService)
+		}
+	}
+	c13PristineTyped = c13DeepRender(reflect.ValueOf(cfg.Service.Telemetry), 0)
+}
+
+// c13FirstDiff: the first (sorted) leaf path at which two flattened configurations differ.
+func c13FirstDiff(a, b map[string]any) (string, bool) {
+	keys := map[string]bool{}
+	for k := range a {
+		keys[k] = true
+	}
+	for k := range b {
+		keys[k] = true
+	}
+	ks := make([]string, 0, len(keys))
+	for k := range keys {
+		ks = append(ks, k)
+	}
+	sort.Strings(ks)
+	for _, k := range ks {
+		av, aok := a[k]
+		bv, bok := b[k]
+		if aok != bok || c13Norm(av) != c13Norm(bv) {
+			return k, true
+		}
+	}
+	return "", false
+}
+
+// c13CheckService: a load that writes nothing below service::telemetry must show the telemetry section of the first load
+// of the process, in the effective AND in the typed configuration.
+func c13CheckService(out *vOut, sig string, eff map[string]any, cfg *otelcol.Config) {
+	flat := map[string]any{}
+	if svc, ok := eff["service"].(map[string]any); ok {
+		if tel, ok := svc["telemetry"].(map[string]any); ok {
+			c13Flatten(tel, "", flat)
+		}
+	}
+	if p, diff := c13FirstDiff(c13PristineService, flat); diff {
+		out.Linef("viol sig=%s/telemetry::%s fresh=%s now=%s", sig, p, vHex(c13Norm(c13PristineService[p])), vHex(c13Norm(flat[p])))
+		return
+	}
+	if typed := c13DeepRender(reflect.ValueOf(cfg.Service.Telemetry), 0); typed != c13PristineTyped {
+		out.Linef("viol sig=%s/telemetry::<typed-only> fresh=%s now=%s", sig, vHex(c13PristineTyped), vHex(typed))
+	}
+}
+
+// c13ServiceHistory: load A writes settings below service::telemetry (scalars behind pointers, maps, lists); load B is the
+// same document without them; B must equal the first load of the process. Also: the service sections of two successive
+// loads, and two telemetry factory defaults, must not share any pointer, map or slice.
+func c13ServiceHistory(out *vOut, factories otelcol.Factories, first int) int {
+	n := 0
+	open := func(what string) {
+		out.Linef("case %d service-history=%s", first+n, what)
+		out.Linef("op inst id=%s def=- w=-", vHex("service-history/"+what))
+		out.Linef("obs eff -")
+		n++
+	}
+	closeCase := func() {
+		out.Linef("nt")
+		out.Linef("end")
+		out.Flush()
+	}
+	minimal := func(tel map[string]any) map[string]any {
+		svc := c13MinimalService()
+		if tel != nil {
+			svc["telemetry"] = tel
+		}
+		return map[string]any{"receivers": map[string]any{"nop": map[string]any{}}, "exporters": map[string]any{"nop": map[string]any{}}, "service": svc}
+	}
+	open("pristine")
+	if c13PristineErr != nil {
+		out.Linef("viol sig=C13/load/valid-config-rejected where=pristine err=%s", vHex(c13PristineErr.Error()))
+	}
+	// collector-level defaults: the telemetry factory's default configuration
+	ta, tb := telemetry.NewFactory().CreateDefaultConfig(), telemetry.NewFactory().CreateDefaultConfig()
+	before := c13DeepRender(reflect.ValueOf(tb), 0)
+	c13SharedWalk(reflect.ValueOf(ta), reflect.ValueOf(tb), "", 0, func(path, what string) {
+		out.Linef("viol sig=C13/defaults/shared-mutable-default/service-telemetry-factory/%s kind=%s", path, what)
+	})
+	c13MutateAll(reflect.ValueOf(ta), 0)
+	if after := c13DeepRender(reflect.ValueOf(tb), 0); after != before {
+		out.Linef("viol sig=C13/defaults/shared-mutable-default/service-telemetry-factory/mutation-visible-in-earlier-default")
+	}
+	if third := c13DeepRender(reflect.ValueOf(telemetry.NewFactory().CreateDefaultConfig()), 0); third != before {
+		out.Linef("viol sig=C13/defaults/shared-mutable-default/service-telemetry-factory/mutation-visible-in-later-default")
+	}
+	// two successive loads of the same key-less document: no shared pointer / map / slice anywhere in the configuration
+	c1, e1 := c13LoadJSON(factories, minimal(nil))
+	c2, e2 := c13LoadJSON(factories, minimal(nil))
+	if e1 != nil || e2 != nil {
+		out.Linef("viol sig=C13/load/valid-config-rejected where=service-history-minimal")
+	} else {
+		shared := map[string]bool{}
+		c13SharedWalk(reflect.ValueOf(c1), reflect.ValueOf(c2), "", 0, func(path, what string) {
+			if !shared[path] {
+				shared[path] = true
+				out.Linef("viol sig=C13/defaults/shared-mutable-default/collector-config/%s kind=%s", path, what)
+			}
+		})
+	}
+	closeCase()
+	writes := []struct {
+		name string
+		tel  map[string]any
+	}{
+		{"logs::sampling", map[string]any{"logs": map[string]any{"sampling": map[string]any{"enabled": false, "tick": "7s", "initial": 3, "thereafter": 77}}}},
+		{"logs::sampling::initial", map[string]any{"logs": map[string]any{"sampling": map[string]any{"initial": 5}}}},
+		{"logs::scalars", map[string]any{"logs": map[string]any{"level": "debug", "encoding": "json", "development": true, "disable_caller": true, "disable_stacktrace": true}}},
+		{"logs::lists", map[string]any{"logs": map[string]any{"output_paths": []any{"stdout"}, "error_output_paths": []any{"stdout"}, "initial_fields": map[string]any{"k": "v"}}}},
+		{"logs::processors", map[string]any{"logs": map[string]any{"processors": []any{map[string]any{"batch": map[string]any{"exporter": map[string]any{"otlp": map[string]any{"protocol": "http/protobuf", "endpoint": "localhost:4318"}}}}}}}},
+		{"metrics::level+readers", map[string]any{"metrics": map[string]any{"level": "detailed", "readers": []any{map[string]any{"pull": map[string]any{"exporter": map[string]any{"prometheus": map[string]any{"host": "localhost", "port": 9999}}}}}}}},
+		{"traces", map[string]any{"traces": map[string]any{"level": "none", "propagators": []any{"b3"}, "processors": []any{map[string]any{"batch": map[string]any{"exporter": map[string]any{"otlp": map[string]any{"protocol": "http/protobuf", "endpoint": "localhost:4318"}}}}}}}},
+		{"resource", map[string]any{"resource": map[string]any{"service.name": "verif", "extra": "x"}}},
+	}
+	for _, w := range writes {
+		open("write-then-remove/" + w.name)
+		cfgA, err := c13LoadJSON(factories, minimal(w.tel))
+		if err != nil {
+			out.Linef("viol sig=C13/load/valid-config-rejected where=service-history/%s err=%s", w.name, vHex(err.Error()))
+			closeCase()
+			continue
+		}
+		_ = cfgA
+		cfgB, err := c13LoadJSON(factories, minimal(nil))
+		if err != nil {
+			out.Linef("viol sig=C13/reload/valid-config-rejected where=service-history/%s err=%s", w.name, vHex(err.Error()))
+			closeCase()
+			continue
+		}
+		if effB, err := c13EffectiveOf(cfgB); err == nil {
+			c13CheckService(out, "C13/reload/removed-key-persists/service", effB, cfgB)
+		}
+		// the two loads must not share mutable state either
+		c13SharedWalk(reflect.ValueOf(cfgA), reflect.ValueOf(cfgB), "", 0, func(path, what string) {
+			out.Linef("viol sig=C13/defaults/shared-mutable-default/collector-config/%s kind=%s", path, what)
+		})
+		closeCase()
+	}
+	return n
 }
